@@ -200,6 +200,34 @@ func (f *Faults) inject(kind string) {
 		}
 		w.stats.fault("leader_cut_from_voters")
 		w.event("fault cut leader s%d from its %d voters", l.idx, k)
+	case "cut_leader_keep_one":
+		// the leader keeps exactly one of its voters (and whatever else it talks to) and loses the others; the
+		// next call to the voter it keeps fails in the transport and the ones after it work: a request that
+		// needs a quorum of three or more must not succeed on the strength of that one voter answering again
+		l := f.leader()
+		if l == nil || l.inc == nil || l.inc.r == nil {
+			return
+		}
+		_, _, latest, _ := l.inc.r.VerifConfigurations()
+		var others []*Node
+		for _, id := range voters(latest) {
+			if vn := w.nodeByID(id); vn != nil && vn != l {
+				others = append(others, vn)
+			}
+		}
+		if len(others) < 2 {
+			return
+		}
+		keep := others[w.ch.Choose(simrt.SFault, len(others))]
+		for _, vn := range others {
+			if vn != keep {
+				w.net.blocked[l.idx][vn.idx] = true
+				w.net.blocked[vn.idx][l.idx] = true
+			}
+		}
+		w.net.failNext[l.idx][keep.idx] = 1 + w.ch.Choose(simrt.SFault, 2)
+		w.stats.fault("leader_cut_from_all_voters_but_one")
+		w.event("fault cut leader s%d from its voters except s%d, next call to it fails", l.idx, keep.idx)
 	case "blip_leader":
 		// the leader loses all its links for a few heartbeat intervals, shorter than its lease:
 		// requests in flight fail in the transport, then everything works again and the
